@@ -455,5 +455,5 @@ def run(ctx):
     from .. import ffi
     ffi.rule_sig(ctx, "C19.FFI", only={"sub", "sto", "k", "n_reactions", "n_species"})
     from .. import lints
-    lints.run(ctx, "C19", ctx.py, ["rdnetwork"], truth_floor=20)
+    lints.run(ctx, "C19", ctx.py, ["rdnetwork", "units", "value_processing"], truth_floor=20)
     ctx.assume("parsing of arbitrary equations and the print-parse round trip are not decided")
